@@ -140,6 +140,9 @@ def main(argv=None):
     from symx import instr
     instr.install()
     instr.precompile()
+    if os.environ.get("VERIF_FRAMEWORK", "twisted") == "twisted":
+        import txaio
+        txaio.use_twisted()          # as an application would: select the framework before importing autobahn modules
     mod = importlib.import_module(modname)
     # import in the parent what every unit needs (children are forked: no per-unit file-system work)
     preload = getattr(mod, "PRELOAD", None)
